@@ -67,6 +67,14 @@ class EffectGraph:
         self.props: Dict[str, List[FnInfo]] = {}
         self.lib_impls: Dict[str, List[FnInfo]] = {}
         self.qfunc: Dict[str, FnInfo] = {}
+        # aten handlers registered for an in-place / out= variant: calling `op(x, ...)` there writes x
+        self.inplace_ops: Dict[int, List[str]] = {}
+        hs = handlers(repo)
+        for t in ("qbytes", "qbits"):
+            for h in hs[t]:
+                ip = [o for o in h.ops if o.split(".")[1].endswith("_") or o.endswith(".out")]
+                if ip:
+                    self.inplace_ops[id(h.fn)] = ip
         self._collect()
         self._fresh_fixpoint()
         for fi in list(self.fns.values()):
@@ -245,6 +253,8 @@ class EffectGraph:
                 f = n.func
                 if isinstance(f, ast.Name) and f.id in ("setattr", "delattr") and n.args:
                     fi.effects.append(Effect(f.id, U(n)[:70], loc.roots(n.args[0]), n.lineno, False))
+                if isinstance(f, ast.Name) and id(fi.fn) in self.inplace_ops and n.args and f.id == positional_params(fi.fn)[0]:
+                    fi.effects.append(Effect("inplace", U(n.args[0]), loc.roots(n.args[0]), n.lineno, True))
                 if isinstance(f, ast.Attribute):
                     if f.attr.endswith("_") and not f.attr.startswith("_") and f.attr not in TENSOR_INPLACE_EXEMPT:
                         fi.effects.append(Effect("inplace", U(f), loc.roots(f.value), n.lineno, True))
